@@ -411,7 +411,7 @@ def run(ctx):
     if digest != ANCHOR_DIGEST:         # rewritten code is explored harder (DESIGN.md 3.2); not a violation
         ctx.count("anchor_changed_budget_x3")
         boost = 3
-    n_small = ctx.n(2500, 36000) * boost
+    n_small = ctx.n(2000, 36000) * boost
     n_mid = ctx.n(0, 6000) * boost
     n_big = ctx.n(0, 1200) * boost
     cases += [gen_pair(ctx, 7) for _ in range(n_small)]
